@@ -11,7 +11,7 @@ CHECKS = {
         technique="runtime monitoring: reference-model oracle over recorded action outputs (in-process find_main + binary), random stratified expression workload",
         level="exploration",
         text="Every execution of the real find_main/binary on a generated expression and tree is compared byte-for-byte (stdout, -fprint* files, recorder log of -exec) with an independent reference evaluation of the same token list; quick ~25k expressions / 14k distinct operator shapes, thorough ~600k. Held means: no observed execution deviated.",
-        note="Trusts lib/refeval.py + lib/refwalk.py (self-checked against a hand-derived table each run) and glibc fnmatch for simple -name patterns; trees on tmpfs, follow mode -P only; expression depth <= 7.",
+        note="Trusts lib/refeval.py + lib/refwalk.py (self-checked against a hand-derived table each run) and glibc fnmatch for simple -name patterns; trees on tmpfs, follow mode -P only, 1-3 starting points; expression depth <= 7.",
         ref="DESIGN.md section 4 C01"),
     "C02": dict(
         technique="runtime monitoring: multiset oracle (independent lstat/stat walker) over -print0 output, stderr and exit status; fault injection (mode-000 directory walked as uid 65534)",
@@ -23,19 +23,19 @@ CHECKS = {
         technique="runtime monitoring: exact visit-sequence oracle (reference sorted DFS with prune predicate from the reference evaluator) + oracle-free metamorphic relation (-depth with/without -prune)",
         level="exploration",
         text="The complete sequence printed by find r -sorted [-depth] EXPR is compared with the reference pre/post-order walk for 8 prune expression shapes and name/path/iname/regex/glob selections on trees whose sibling names separate byte order from locale order; under -depth/-delete the run with -prune replaced by -true must print the same bytes. Quick ~3.5k sequences, thorough ~110k.",
-        note="Follow mode -P only (the statement does not quantify over follow modes; -H -depth on a symlinked root emits the root first, a walkdir quirk recorded in DESIGN.md). Trusts refwalk/refeval.",
+        note="Prune workload under -P, -L and -H (link loops out of domain); -xdev/-mount over trees with tmpfs mounts inside the sandbox (skipped and noted where mounting is not permitted). Known finding H-symlinked-root-depth-directory-released-late (known_findings.json) is matched by exact signature. Trusts refwalk/refeval.",
         ref="DESIGN.md section 4 C03"),
     "C04": dict(
         technique="runtime monitoring: invariant checker over the recorder log (argv of every child, in order) of the real xargs binary: conservation, fixed prefix, -n/-L/-s limits, maximality, empty-input and oversize rules",
         level="exploration",
         text="Every xargs run's child argv sequence is checked against the unique maximal batching implied by the statement's invariants, computed from the reference tokenisation; option values are chosen so that each limit, and two limits at once, bind. Quick 3.2k runs / 7k children, thorough 96k runs.",
-        note="Inputs free of quotes/backslashes (C05 owns those); -x overflow coinciding with an -n/-L boundary not judged; -s below the system budget.",
+        note="Inputs free of quotes/backslashes (C05 owns those); -x overflow coinciding with an -n/-L boundary not judged; for inputs larger than one command line (no binding limit option, or -s far above the system budget) conservation/order/prefix/exit status are judged, maximality against the system budget is not (C06 owns the budget).",
         ref="DESIGN.md section 4 C04"),
     "C05": dict(
         technique="runtime monitoring: online chunking-independence checker on the hooked real readers (bounded-exhaustive inputs x cut sets, injected EINTR) + reference tokenizer oracle + binary fed by a chunked writer",
         level="exploration",
         text="Exhaustive over an 8-symbol separator/quote/escape/letter/multibyte alphabet up to length 6 (quick, 300k inputs, 8M input-chunking pairs) / 8 (thorough, 19M inputs), every cut set for short inputs, plus long inputs straddling the 4096/8192 buffer edges under 20 chunkings, -0 and -d modes, and a binary sample. Any chunking whose result differs from the unchunked one, or any unchunked result differing from the reference tokenizer, is a violation.",
-        note="Hook xargs::verif::split constructs the two private readers exactly as do_xargs does. Not judged: stand-alone empty quoted tokens, newline inside quotes, trailing backslash, CR/FF/VT/NUL in default mode, empty fields in -0/-d mode.",
+        note="Hook xargs::verif::split constructs the two private readers exactly as do_xargs does. Not judged: stand-alone empty quoted tokens, newline inside quotes, trailing backslash, VT/NUL in default mode, empty fields in -0/-d mode. CR/FF in default mode are judged under both readings (separator or ordinary byte), never as a line end.",
         ref="DESIGN.md section 4 C05"),
     "C06": dict(
         technique="runtime monitoring: strace execve event log (E2BIG = refutation) + exit status + compact recorder log with running CRC chain (exactly-once, order) under an rlimit/environment grid",
@@ -47,7 +47,7 @@ CHECKS = {
         technique="runtime monitoring: byte-exact oracle over find's stdout (tree spec with known name bytes) + recorder argv multiset/sequence behind the real `find -print0 | xargs -0` pipe",
         level="exploration",
         text="Trees whose names are drawn from hostile valid-UTF-8 classes (blank-only, edge blanks, leading dashes, newlines, quotes, backslashes, {}, command substitutions, glob and control characters, 2-4-byte characters, 255-byte names) are walked by the real find with -print0/-print (root spelled r, ./r, r/, absolute); stdout must equal the concatenation of the known path bytes plus terminator, and the argv recorded behind xargs -0 must be the same sequence.",
-        note="Valid UTF-8 names only (as the statement says); tmpfs.",
+        note="Valid UTF-8 names only (as the statement says); tmpfs; the many-paths pipelines run xargs under a 512 KiB-2 MiB stack limit.",
         ref="DESIGN.md section 4 C07"),
     "C08": dict(
         technique="runtime monitoring: recorder event log (argv+cwd per child) checked for exactly-once/order/fixed-prefix/one-directory-per-batch invariants against the reference evaluation; strace execve log (E2BIG = refutation); exit status under scripted failures",
@@ -59,13 +59,13 @@ CHECKS = {
         technique="runtime monitoring: recorder argv/cwd per child vs textual substitution model; truth value observed through a following labelled action; find exit status",
         level="exploration",
         text="Hostile file names x argument templates with 0-3 {} per argument (embedded, adjacent, lone braces, empty arguments, arguments that look like find primaries) x -exec/-execdir x 7 placements of the action (plain, after tests, negated, in -o, twice, missing command); the recorder's exit status is a pure function of argv, so the expected truth of every evaluation is computable.",
-        note="'{}' in the command name itself not judged; starting point spelled 'r'.",
+        note="'{}' in the command name itself not judged; exit status of a following '{} +' action not judged.",
         ref="DESIGN.md section 4 C09"),
     "C10": dict(
         technique="runtime monitoring: strace log of every mutating syscall of find + before/after snapshots of the sandbox and of the directories links point to, vs a model replay of the -depth -print order on a twin copy",
         level="exploration",
         text="Sandboxes with nested directories, links to files and directories inside and outside the starting points, dangling links; state-independent expressions leaving some matched directories non-empty; follow modes -P/-H/-L; 1-2 starting points incl. a symlinked one. Successful removals in the strace log must equal the replayed ones in order, no other mutating syscall may occur, the after-snapshot must equal the twin's, and exit status/diagnostic/truth must reflect failed removals.",
-        note="Tests whose truth depends on earlier deletions (-empty, -links, -newer*) not used.",
+        note="Tests whose truth depends on earlier deletions (-empty, -links, -newer*) not used; runs as root (mknod for device nodes).",
         ref="DESIGN.md section 4 C10"),
     "C11": dict(
         technique="runtime monitoring: (a) ill-formed-by-construction argument vectors observed for exit status, stderr, stdout, child processes (recorder log) and sandbox snapshot; (b) totality fuzzing of the real find_main under catch_unwind with a per-case watchdog (privileges dropped to uid 65534), plus the binary for non-UTF-8 arguments; pattern-bearing vectors replayed under valgrind memcheck (crash = violation, reports advisory)",
@@ -95,7 +95,7 @@ CHECKS = {
         technique="runtime monitoring: oracle-free invariants (the three forms -N/N/+N partition the files; +N/-N monotone in N) plus integer-arithmetic oracle on os.lstat records, over labelled clause triples evaluated in-process with an injected clock",
         level="exploration",
         text="About 150 files per worker: sparse files of size 0,1,2 and k*u-1,k*u,k*u+1 for every unit and k in {1,2,3,1023,1024}, 2^32/2^33/2^40/2^62 (+-1), 2^63-1; hard-link groups; chown'ed files; files with injected ages around day/minute boundaries incl. the future. Operands around every file's rounded value for each of c,w,b,none,k,M,G, 0/1/2 and 2^31..2^64-1; -links/-inum/-uid/-gid; the six time tests (trichotomy and monotonicity, oracle for ages >= 0). Quick ~450 triples x ~150 files.",
-        note="N >= 2^64 not used; negative ages judged for trichotomy and monotonicity only.",
+        note="N >= 2^64 not used; negative ages judged for trichotomy and monotonicity only; the mount-point rounds need mount permission (skipped and counted otherwise).",
         ref="DESIGN.md section 4 C14"),
     "C15": dict(
         technique="runtime monitoring: ns-resolution integer oracle on os.lstat records with the clock injected through Dependencies::now(); timestamps set with utimensat, ctime read back and `now` placed relative to it",
@@ -107,13 +107,13 @@ CHECKS = {
         technique="runtime monitoring: independent renderer (Python, from os.lstat/os.stat/os.readlink and string operations on the path text) compared byte-for-byte with the output captured from the real find (in-process, binary sample, -fprintf files read back); oracle-free identities %p = -print and %H/%P recomposition",
         level="exploration",
         text="Random format strings (1-8 pieces: ASCII and multi-byte literals, every escape incl. \\NNN, %%, directives p f h H P d s n i U G m y Y l with optional '-' flag and width 0-40) rendered for every entry of a tree with all file types, links to file/dir/fifo/dangling, setuid/setgid/sticky modes, foreign owners, hard links and multi-byte names, under 19 starting-point spellings (r, ./r, r/, ., ./, absolute, absolute/, sub-directory, link to directory, link/, link to file, dangling link, file, several roots, r//, inner //) and -P/-H/-L. Quick ~3200 formats / ~50k (format, entry) renderings, 180 (directive, mode, flag, width) cells.",
-        note="(The former finding percent-H-root-with-trailing-slash is repaired; its signature is still computed, so a recurrence is reported as a fresh violation.) Not judged: leading zeros of %m, \\NNN above 177, width on non-ASCII values, %Y under -H/-L and for dangling links, %l for links the follow mode resolves, %h with // or directly below /, %f/%h of dot components.",
+        note="(The former finding percent-H-root-with-trailing-slash is repaired; its signature is still computed, so a recurrence is reported as a fresh violation.) Not judged: leading zeros of %m, \\NNN above 177, width on non-ASCII values beyond "padded to the width in characters or in bytes" (the statement does not name the unit), %Y under -H/-L and for dangling links, %l for links the follow mode resolves, %h with // or directly below /, %f/%h of dot components.",
         ref="DESIGN.md section 4 C16"),
     "C18": dict(
         technique="runtime monitoring: per-starting-point reference walk (paths formed textually from the starting point as spelled) compared with the -print0 output, stderr and exit status of the real binary; operands vs -files0-from equivalence as an oracle-free relation",
         level="exploration",
         text="Lists of 0-5 starting points over 42 spellings (d ./d d/ d// d/. x/../d absolute .//d ../a . ./ .. ../, links, files, dangling links, names with blanks, multi-byte names, a lone '-', missing names, duplicates, nested ones) given as operands, as no operand, and as NUL-separated lists from a file and from stdin (with/without final NUL, with empty names, with names starting with '-', '!' '(' or containing a newline). -sorted runs are compared as exact sequences, the others as per-starting-point multisets in the order given; equivalent operand/-files0-from pairs must give identical output and exit status.",
-        note="Exit status after an empty -files0-from name is not judged (statement: diagnosed and skipped); valid UTF-8 names; follow mode -P.",
+        note="Exit status after an empty -files0-from name is not judged (statement: diagnosed and skipped); valid UTF-8 names.",
         ref="DESIGN.md section 4 C18"),
     "C19": dict(
         technique="runtime monitoring: scripted recorder outcomes, exit status and number of invocations started vs the documented function; bounded-exhaustive over outcome classes",
@@ -125,7 +125,7 @@ CHECKS = {
         technique="runtime monitoring: recorder argv per invocation vs textual substitution model; option-order matrix for -I/-n/-L",
         level="exploration",
         text="Random line sets and initial-argument templates with 0-3 occurrences of R, six replacement strings in five spellings, empty input, -I with -n 1, and all orderings of all subsets of {-I,-n,-L} (mode of the last option judged with C04's batching model).",
-        note="Lines free of quotes, backslashes, leading/trailing blanks (statement's restriction).",
+        note="Lines free of quotes, backslashes and leading blanks (statement's restriction); trailing blanks and bytes that are not valid UTF-8 are judged.",
         ref="DESIGN.md section 4 C20"),
 }
 
